@@ -388,6 +388,45 @@ def w_programs(ctx, rng, i):
     ctx.count_case(("program", d, tuple(ops)), nontrivial=ok.sum() >= 3, sample={"ops": ops, "dims": d} if i < 4 else None)
 
 
+def w_vector_inplace(ctx, rng, i):
+    """The parameter-vector flavour of in-place composition (`compose_after_from_vector_inplace`): the receiver becomes
+    receiver o from_vector(v) - the same map as the out-of-place composition with the transform of those parameters."""
+    import menpo.transform as mt
+    d = 2 + i % 2
+    kinds_ = [k for k in tx.HOMOG if k != "Homogeneous"] + ["Homogeneous"]
+    kind = kinds_[(i // 2) % len(kinds_)]
+    a, _ = tx.make(rng, kind, d)
+    b, _ = tx.make(rng, kind, d)
+    if not hasattr(a, "compose_after_from_vector_inplace"):
+        ctx.count_case(("vector_inplace", kind, d, "n/a"), nontrivial=False)
+        return
+    try:
+        v = np.array(b.as_vector(), dtype=float)
+        delta = a.from_vector(v)
+    except Exception:
+        ctx.count_case(("vector_inplace", kind, d, "no_vector"), nontrivial=False)
+        return
+    if tx.maxdiff(delta.h_matrix, b.h_matrix) > 1e-9 * max(1.0, float(np.abs(b.h_matrix).max())):
+        ctx.count_case(("vector_inplace", kind, d, "no_parameters_for_that_member"), nontrivial=False)      # (mirrored similarity ...: C05's subject)
+        return
+    x = probe_pts(d)
+    ref = a.apply(delta.apply(x))                  # compose_after: the argument first, then the receiver
+    recv = a.copy()
+    try:
+        recv.compose_after_from_vector_inplace(v)
+    except Exception as e:
+        ctx.fail("compose_raised", cls=type(a).__name__, mech="after_from_vector_inplace:" + type(e).__name__, error=repr(e)[:160])
+        return
+    ctx.tap("vector_flavour_of_inplace_composition", "calls"); ctx.tap("vector_flavour_of_inplace_composition", "checked")
+    got = recv.apply(x)
+    sc = max(1.0, float(np.abs(ref).max()))
+    if not (tx.maxdiff(got, ref) <= 1e-8 * sc):
+        ctx.fail("inplace_composition_differs_from_the_out_of_place_map", cls=type(a).__name__, mech="after_from_vector_inplace", err=tx.maxdiff(got, ref))
+    if tx.maxdiff(v, np.asarray(b.as_vector(), dtype=float)) > 0:
+        ctx.fail("compose_modified_its_argument", cls=type(a).__name__, mech="after_from_vector_inplace:vector")
+    ctx.count_case(("vector_inplace", kind, d), nontrivial=True)
+
+
 def w_units(ctx, rng, i):
     """Operands of extreme but legal magnitude: the composition law is a statement about maps, whatever their unit.
     Similarity-family members with a huge / tiny scale and a generic rotation; scale objects whose factors are tiny or
@@ -395,7 +434,37 @@ def w_units(ctx, rng, i):
     import menpo.transform as mt
     import menpo.shape as ms
     d = 2 + i % 2
-    fam = (i // 2) % 3
+    fam = (i // 2) % 4
+    if fam == 3:
+        # a projective map composed with the translation that makes the bottom-right entry of the product exactly zero (k * H
+        # stands for the same map for every k != 0: a zero corner is a matrix like any other)
+        h = np.eye(d + 1)
+        h[:d, :d] = gen.well_conditioned(rng, d, 0.6, 1.6)
+        p_ = np.zeros(d); p_[rng.integers(0, d)] = [1.0, 0.5, 2.0, -1.0][rng.integers(0, 4)]
+        h[d, :d] = p_
+        a = mt.Homogeneous(h)
+        t_ = np.zeros(d); t_[np.nonzero(p_)[0][0]] = -1.0 / p_[np.nonzero(p_)[0][0]]
+        b = mt.Translation(t_)
+        x = np.array(probe_pts(d), copy=True)
+        x = x[np.abs(x @ p_) > 0.5]                     # away from the points the product sends to infinity
+        for how in ("compose_after", "compose_before_on_b", "inplace"):
+            try:
+                if how == "compose_after":
+                    c = a.compose_after(b)
+                elif how == "compose_before_on_b":
+                    c = b.compose_before(a)
+                else:
+                    c = a.copy(); c.compose_after_inplace(b)
+                got = c.apply(x)
+            except Exception as e:
+                ctx.fail("compose_raised", cls="Homogeneous", mech="units:zero_corner:%s:%s" % (how, type(e).__name__), error=repr(e)[:160])
+                continue
+            ref = a.apply(b.apply(x))
+            ctx.tap("composition_law_any_unit", "calls"); ctx.tap("composition_law_any_unit", "checked")
+            if not (tx.maxdiff(got, ref) <= 1e-8 * max(1.0, float(np.abs(ref).max()))):
+                ctx.fail("composition_law_violated", cls="Homogeneous", mech="units:zero_corner:" + how, corner=float(np.asarray(c.h_matrix)[-1, -1]))
+        ctx.count_case(("units", fam, d, "Homogeneous", "Translation"), nontrivial=True)
+        return
     if fam == 0:
         mag = 10.0 ** (rng.uniform(4, 7.5) * rng.choice([-1.0, 1.0]))
         h = np.eye(d + 1)
@@ -445,7 +514,8 @@ def w_units(ctx, rng, i):
 
 
 WORKLOADS = [
-    Workload("units", w_units, quick=600, thorough=20000),
+    Workload("units", w_units, quick=800, thorough=24000),
+    Workload("vector_flavour_inplace", w_vector_inplace, quick=2 * 15 * 8, thorough=2 * 15 * 200),
     Workload("pairs", w_pairs, quick=2 * (17 * 17 + 14 * 14) * 4, thorough=2 * 17 * 17 * 4 * 40),
     Workload("programs", w_programs, quick=1500, thorough=80000),
     Workload("hostile_representations", w_hostile_reps, quick=2 * 4 * 16, thorough=2 * 4 * 16 * 20),
